@@ -303,3 +303,19 @@ func verifSelfUF() {
 		verifCover("uf-differs")
 	}
 }
+
+// verifSelfFields: strings.Fields / strings.Join over a SYMBOLIC string must explore every
+// string, not one concretisation: a string with two fields exists ("a b", "a\tb").
+func verifSelfFields() {
+	s := verifString("s", 3)
+	ok := true
+	for i := 0; i < len(s); i++ {
+		c := s[i]
+		if !(c == 'a' || c == 'b' || c == ' ' || c == '\t') {
+			ok = false
+		}
+	}
+	verifAssume(ok)
+	f := strings.Fields(s)
+	verifAssert(len(f) != 2, "two-fields-exist")
+}
